@@ -32,9 +32,10 @@ PROPERTY = 'C19'
 LEVEL = 'exploration'
 
 UNIVERSE = ['a.txt', 'A.TXT', 'mat.txt', 'materials/x.vmt', 'materials/sub/y.vtf', 'materials2/z.vmt',
-            'Models/m.mdl', 'x', '.hid/k.txt']
+            'Models/m.mdl', 'x', '.hid/k.txt', 'Stra\u00dfe/\u0391\u03a3.txt']
 ABSENT = ['nope.txt', 'materials', 'materials/sub', 'materials/x', 'mat', 'x.vmt', 'hid/k.txt', 'k.txt', '.a.txt']     # never files
 BACKENDS = ['virtual', 'zip', 'vpk', 'raw']
+SET_BACKENDS = BACKENDS + ['raw_free']       # RawFileSystem(path, constrain_path=False): file-set battery only
 LOOKUP_OPS = ['in', 'getitem', 'open_bin', 'open_str']
 
 REAL_FOLDERS = ['materials', 'materials/sub', 'materials2', 'Models', '.hid']
@@ -124,7 +125,7 @@ def materialise(where: str, backend: str, files: list) -> str:
             vpk.add_file(name, data, arch_index=None)
         vpk.write_dirfile()
         return path
-    if backend == 'raw':
+    if backend in ('raw', 'raw_free'):
         path = os.path.join(where, 'dir')
         os.makedirs(path, exist_ok=True)
         for name, data in files:
@@ -143,6 +144,8 @@ def open_fs(backend: str, path: str, files: list):
         return ZipFileSystem(path)
     if backend == 'vpk':
         return VPKFileSystem(path)
+    if backend == 'raw_free':
+        return RawFileSystem(path, constrain_path=False)
     return RawFileSystem(path)
 
 
@@ -305,10 +308,10 @@ def backend_battery(acc: core.Acc, names: list, workdir: str, only: dict | None 
     files = set_files(names, 's')
     model = Model(files)
     systems = {}
-    for b in BACKENDS:
+    for b in SET_BACKENDS:
         if only and b != only['backend'] and only['op'] not in ('casedup', 'lead_sep'):
             continue
-        if b == 'raw' and model.has_casedup:
+        if b.startswith('raw') and model.has_casedup:
             acc.count('skipped_raw_casedup_set')
             continue
         if b == 'vpk' and not all(vpk_representable(n) for n, _ in files):
@@ -325,7 +328,7 @@ def backend_battery(acc: core.Acc, names: list, workdir: str, only: dict | None 
                 for op in ('in', 'getitem'):
                     got = {}
                     for b, fs in systems.items():
-                        if b == 'raw':
+                        if b.startswith('raw'):
                             continue
                         o = observe_lookup(fs, op, q)
                         got[b] = o[0] if o[0] != 'present' else ('present', o[1])
@@ -338,7 +341,7 @@ def backend_battery(acc: core.Acc, names: list, workdir: str, only: dict | None 
     for base in UNIVERSE + ABSENT:
         sp = spellings(base, trail=False)
         for b, fs in systems.items():
-            exact = b == 'raw'
+            exact = b.startswith('raw')
             keys = model.keys(exact)
             for op in LOOKUP_OPS:
                 if only and (only['op'] not in (op, 'casedup') or only['base'] != base):
@@ -393,7 +396,7 @@ def backend_battery(acc: core.Acc, names: list, workdir: str, only: dict | None 
         for b, fs in systems.items():
             if only and (only['op'] != 'walk' or only['base'] != base):
                 continue
-            exact = b == 'raw'
+            exact = b.startswith('raw')
             keys = model.keys(exact)
             results = {}
             details = {}
@@ -810,7 +813,7 @@ def run(ctx: core.Ctx) -> None:
     shards.sort(key=lambda sp: -(sp[2] if sp[0] == 'chain' else 0))
     core.par_map(shard, shards, ctx.acc)
     ctx.rule = (f"part 'backend': every file set of <= {max_names} names from {UNIVERSE} (distinct contents) x backends "
-                f"{BACKENDS} (directory backend skipped for sets holding two names that differ only in case; for those sets "
+                f"{BACKENDS} (the directory backend both constrained and with constrain_path=False; skipped for sets holding two names that differ only in case; for those sets "
                 f"files are stored in the VPK writer's order and only agreement on the winner is demanded) x lookups "
                 f"{LOOKUP_OPS} of every spelling (exact/upper/lower x slash/backslash x './' prefix; directory backend: "
                 f"exact case only) of every universe name and of {ABSENT} x walk_folder of every spelling (additionally x "
